@@ -9,6 +9,8 @@ CONSTANTS
   WithMigration = FALSE
   EmptyTableAtStart = FALSE
   AtomicAsk = FALSE
+  WithFailover = FALSE
+  FixRefreshOnDialError = TRUE
 INVARIANTS EqualsReference EffectOnce SingleCopy CopyIsReference NoLostKey FirstHopIsOwner
 CONSTRAINT HopBound
 CHECK_DEADLOCK FALSE
